@@ -162,15 +162,29 @@ def h_decompose(d: bool):
 
 
 def _descr_scheme(matches_by_kind):
-    """one always-matching centre pattern ('none' centre: no groups) + correction descriptors of the three kinds"""
-    other = [{'name': 'D_ring', 'connectivity': FakePattern(lambda mol: matches_by_kind['other'])}]
-    smiles = [{'name': 'D_smiles', 'smiles': 'q1', 'useChirality': False}]
-    smarts = [{'name': 'D_smarts', 'smarts': 'q2', 'useChirality': False}]
+    """one always-matching centre pattern ('none' centre: no groups) + correction descriptors of the three kinds; each
+    kind declares its name TWICE (two patterns feeding one descriptor, as BensonGA does for e.g. Cis): counts add up"""
+    mk = matches_by_kind
+    other = [{'name': 'D_ring', 'connectivity': FakePattern(lambda mol: mk['other'])},
+             {'name': 'D_ring', 'connectivity': FakePattern(lambda mol: mk.get('other2', []))}]
+    smiles = [{'name': 'D_smiles', 'smiles': 'q1', 'useChirality': False},
+              {'name': 'D_smiles', 'smiles': 'q1b', 'useChirality': False}]
+    smarts = [{'name': 'D_smarts', 'smarts': 'q2', 'useChirality': False},
+              {'name': 'D_smarts', 'smarts': 'q2b', 'useChirality': False}]
     pats = [{'connectivity': FakePattern(lambda mol: [(a,) for a in range(mol.GetNumAtoms())]),
              'center_name': 'none', 'periph_name': 'none'}]
     return SC.GroupAdditivityScheme(patterns=pats, pretreatment_rules=[], remaps={'D_smarts': [[0.5, 'D_half']]},
                                     other_descriptors=other, smiles_based_descriptors=smiles,
                                     smarts_based_descriptors=smarts, include=[])
+
+
+def descr_mols(mk, natoms):
+    q = {'q2': 'smarts', 'q2b': 'smarts2', 'q1': 'smiles', 'q1b': 'smiles2'}
+    mol = rf.FMol([rf.FAtom(6) for _ in range(natoms)], [],
+                  matcher=lambda m, qq, kw: mk.get(q[qq], []) if qq in ('q2', 'q2b') else [])
+    clean = rf.FMol([rf.FAtom(6) for _ in range(natoms)], [],
+                    matcher=lambda m, qq, kw: mk.get(q[qq], []) if qq in ('q1', 'q1b') else [])
+    return mol, clean
 
 
 def h_descr(d: bool):
@@ -205,11 +219,14 @@ def h_descr(d: bool):
     kind = ['other', 'smiles', 'smarts'][choose('kind', 3)]
     mk = {'other': [], 'smiles': [], 'smarts': []}
     mk[kind] = list(matches)
+    if PARAM.get('dupname') and bool(B('second_pattern')):     # the second pattern with the same descriptor name also matches
+        y = [2, 10][choose('y', 2)]
+        if y in base:
+            return skip()
+        mk[kind + '2'] = [tuple([y] + list(base[1:])), tuple(list(base[1:]) + [y])][:choose('nsecond', 2) + 1]
+        want += 1
     natoms = N
-    mol = rf.FMol([rf.FAtom(6) for _ in range(natoms)], [],
-                  matcher=lambda m, q, kw: mk['smarts'] if q == 'q2' else [])
-    clean = rf.FMol([rf.FAtom(6) for _ in range(natoms)], [],
-                    matcher=lambda m, q, kw: mk['smiles'] if q == 'q1' else [])
+    mol, clean = descr_mols(mk, natoms)
     scheme = _descr_scheme(mk)
     try:
         # every input is a realised (concrete) value here: the call runs outside the tracer so that the real CPython
@@ -286,6 +303,9 @@ def obligations(tier, seed):
         obs.append(dict(name='decompose_n%d_P%d_f%d' % (n, P, bits), func='h_decompose', param=dict(n=n, P=P, fix=fix), timeout=to))
     for i in range(0, 24, 1 if not q else 3):
         obs.append(dict(name='descr_i%d' % i, func='h_descr', param=dict(N=24, size=2, fix=dict(i=i)), timeout=to))
+    for (i, j) in ((0, 8), (3, 5)):
+        # two patterns feeding one descriptor name (the second one matching or not): counts add up
+        obs.append(dict(name='descr_dupname_%d_%d' % (i, j), func='h_descr', param=dict(N=24, size=2, dupname=True, fix=dict(i=i, j=j)), timeout=to))
     if not q:
         for i in range(0, 24, 4):
             for j in range(1, 24, 6):
